@@ -130,6 +130,11 @@ func ForEco(name string) Scenario {
 	// the same shorthand on a structurally rich base (pre-release / suffix spelling)
 	richBase := map[string]string{"npm": "^1.2.3-alpha.2", "cargo": "^1.2.3-alpha.2", "composer": "^1.2.3-beta1", "conan": "~1.2.3-alpha", "gem": "~>1.2.3.rc1", "hex": "~>1.2.3-rc.1", "pypi": "~=1.2.3.post1"}
 	r4 := richBase[name]
+	// an OR range whose LAST alternative is the one that admits vb (self-reordering alternative lists)
+	r5 := ""
+	if syn.Or != "" {
+		r5 = "<" + va + " " + syn.Or + " >" + vc + " " + syn.Or + " =" + vb
+	}
 	cands := gen.Uniq(gen.Versions(name, 0))
 	quads := collisionQuads(e, cands)
 	inputs := []string{va, vb, vc, rich}
@@ -172,7 +177,7 @@ func ForEco(name string) Scenario {
 				s.order = append(s.order, in)
 			}
 		}
-		for _, r := range []string{r1, r2, r3, r4} {
+		for _, r := range []string{r1, r2, r3, r4, r5} {
 			if r == "" {
 				continue
 			}
@@ -240,6 +245,37 @@ func ForEco(name string) Scenario {
 	}
 	if r4 != "" {
 		ops = append(ops, contains(r4, vb), contains(r4, rich))
+	}
+	// a shorthand on a partial base followed by parsing the partial text as a version (parser
+	// modes left switched on in the shared ecosystem value)
+	if pb, ok := map[string][2]string{"npm": {"^", "1.2"}, "cargo": {"~", "1.2"}, "composer": {"^", "1.2"}, "conan": {"~", "1.2"}, "gem": {"~>", "1.2"}, "hex": {"~> ", "2.1"}, "pypi": {"~=", "2.2"}, "nuget": {"", "1.*"}}[name]; ok {
+		rs, pv := pb[0]+pb[1], pb[1]
+		ops = append(ops,
+			Op{Name: fmt.Sprintf("NewVersionRange(%q)", rs), Run: func(s *Shared) string {
+				rg, err := s.Eco.ParseRange(rs)
+				if err != nil {
+					return res(nil, err)
+				}
+				return rg.String()
+			}},
+			Op{Name: fmt.Sprintf("NewVersion(%q)", pv), Run: func(s *Shared) string {
+				v, err := s.Eco.Parse(pv)
+				if err != nil {
+					return res(nil, err)
+				}
+				return v.String()
+			}},
+			Op{Name: fmt.Sprintf("NewVersionRange(%q)", ">="+va), Run: func(s *Shared) string {
+				rg, err := s.Eco.ParseRange(">=" + va + syn.SingleSuffix)
+				if err != nil {
+					return res(nil, err)
+				}
+				return rg.String()
+			}},
+		)
+	}
+	if r5 != "" {
+		ops = append(ops, contains(r5, vb), contains(r5, va), contains(r5, vc))
 	}
 	if len(extra) >= 2 {
 		ops = append(ops, cmp(extra[0], extra[1]), cmp(extra[1], extra[0]), contains(r1, extra[0]))
